@@ -508,6 +508,55 @@ func muxReAddHistory(r *Rng, tier string) (int, []muxOp) {
 	return period, g.ops
 }
 
+// muxReAddAfterMany: data on a PID, removal, then n other streams added and removed (explicit and automatic PIDs,
+// some with data in between), then the first PID added again and written: its counter carries on however many other
+// removals lie in between (n around powers of two: a bounded memory of removed counters would forget it).
+func muxReAddAfterMany(r *Rng, tier string, n int) (int, []muxOp) {
+	g := newMuxGen(r, tier)
+	g.addExplicit(0)
+	pid := g.pids[0]
+	g.setPCR(true)
+	for i := r.Range(1, 3); i > 0; i-- {
+		g.data(pid, nil, r.Range(1, 600))
+	}
+	keep := uint16(0)
+	if r.Bool() {
+		g.addExplicit(0)
+		keep = g.pids[len(g.pids)-1]
+		g.ops = append(g.ops, muxOp{kind: opSetPCR, pid: keep})
+		g.pcr = keep
+	}
+	g.drop(pid)
+	for i := 0; i < n; i++ {
+		if r.Bool() {
+			g.addExplicit(0)
+		} else {
+			g.addAuto(0)
+		}
+		q := g.pids[len(g.pids)-1]
+		if q == pid { // automatic assignment handed out the PID under test: that is a re-addition, keep it out
+			g.drop(q)
+			continue
+		}
+		if r.Chance(1, 8) {
+			if keep == 0 {
+				g.ops = append(g.ops, muxOp{kind: opSetPCR, pid: q})
+			}
+			g.data(q, nil, r.Range(1, 200))
+		}
+		g.drop(q)
+	}
+	g.ops = append(g.ops, muxOp{kind: opAdd, es: g.stream(pid, 0)})
+	g.pids = append(g.pids, pid)
+	if !g.has(g.pcr) {
+		g.setPCR(true)
+	}
+	for i := r.Range(1, 3); i > 0; i-- {
+		g.data(pid, nil, r.Range(1, 600))
+	}
+	return r.Range(1, 50), g.ops
+}
+
 // muxPayloadSize draws from {1, 2, k*184-d, 65520..65560, random}.
 func (g *muxGen) payloadSize() int {
 	r := g.r
@@ -1018,8 +1067,23 @@ func muxAutoSweep(r *Rng, tier string, target int) (int, []muxOp) {
 			g.remove(true)
 		}
 	}
+	// keep the streams next to the PMT PID (those the sweep just passed), write a unit on every stream left
+	near := func(pid uint16) bool { return pid&0xfff <= 8 || pid&0xfff >= 0xff8 }
+	for i := 0; i < len(g.pids) && len(g.pids) > 20; {
+		if near(g.pids[i]) {
+			i++
+			continue
+		}
+		g.drop(g.pids[i])
+	}
+	for len(g.pids) > 20 {
+		g.remove(true)
+	}
 	g.setPCR(true)
 	g.tables()
+	for _, pid := range append([]uint16{}, g.pids...) {
+		g.data(pid, nil, 100)
+	}
 	for len(g.pids) > 6 {
 		g.remove(true)
 	}
@@ -1139,6 +1203,14 @@ func muxGenAll(r *Rng, tier string, m muxMix, emit func(string, Tok)) {
 	for i := 0; i < m.readd; i++ {
 		p, ops := muxReAddHistory(r, tier)
 		emit("remove-add-again", muxCaseTok(p, ops))
+	}
+	for i := 0; i < m.readd/8+1; i++ {
+		ns := []int{64, 256, 65, 257, 16, 32, 128, 512, 1024}
+		if tier == "thorough" {
+			ns = append(ns, 2048, 4096, 8192)
+		}
+		p, ops := muxReAddAfterMany(r, tier, ns[i%len(ns)]+r.Intn(3))
+		emit("add-again-after-many-removals", muxCaseTok(p, ops))
 	}
 	for i := 0; i < m.many; i++ {
 		p, ops := muxManyPackets(r, tier)
